@@ -173,17 +173,29 @@ func (st *State) havocLog() {
 
 // havocLogOpaque: unknown code (function values, callees outside the loaded packages) appends only opaque events:
 // it is assumed not to communicate on the channels, tracers, locks and wait groups of the activation under analysis.
-func (st *State) havocLogOpaque() {
+func (st *State) havocLogOpaque() { st.havocLogKinds(false) }
+
+// havocLogKinds: only opaque events (and, with calls, interface-call events) are appended.
+func (st *State) havocLogKinds(calls bool) {
 	oldLen := st.evlen
 	oldCnt, oldCnc := st.heap("CNT", cntSort), st.heap("CNC", cntSort)
 	st.havocLog()
 	// only events of kind Other were appended: every other counter is unchanged
 	var eqs []string
 	for _, k := range []int{1, 2, 3, 4, 5, 6, 7, 8, 9, 10, 11, 13} {
+		if calls && k == evKinds["Call"] {
+			continue
+		}
 		eqs = append(eqs, fmt.Sprintf("(= (select %s %d) (select %s %d)) (= (select %s %d) (select %s %d))", st.heap("CNT", cntSort), k, oldCnt, k, st.heap("CNC", cntSort), k, oldCnc, k))
 	}
 	st.assume("(and " + strings.Join(eqs, " ") + ")")
-	st.assume(fmt.Sprintf("(forall ((k!p Int)) (! (=> (and (<= %s k!p) (< k!p %s)) (= (ev_kind (select %s k!p)) %d)) :pattern ((select %s k!p))))", oldLen, st.evlen, st.evlog, evKinds["Other"], st.evlog))
+	// (calls of function values made inside that code are abstracted to opaque events as well: FnCall events in a log
+	// are the calls made by the function under contract itself and by callees with precise event contracts)
+	kindOK := fmt.Sprintf("(= (ev_kind (select %s k!p)) %d)", st.evlog, evKinds["Other"])
+	if calls {
+		kindOK = fmt.Sprintf("(or %s (= (ev_kind (select %s k!p)) %d))", kindOK, st.evlog, evKinds["Call"])
+	}
+	st.assume(fmt.Sprintf("(forall ((k!p Int)) (! (=> (and (<= %s k!p) (< k!p %s)) %s) :pattern ((select %s k!p))))", oldLen, st.evlen, kindOK, st.evlog))
 }
 
 // ghostSorted stores a ghost value of an arbitrary sort (merge uses the recorded sort).
